@@ -60,7 +60,8 @@ def chunks(tier, seed):
 def floors(tier):
     q = tier == "quick"
     return {"monitors": {NONE_IFF: 50000, ROUTE: 20000},
-            "counters": {"history_call:dist_cut": 2000, "history_call:sub_network": 1000, "history_call:all_pairs_cut": 1000},
+            "counters": {"history_call:dist_cut": 2000, "history_call:sub_network": 1000, "history_call:all_pairs_cut": 1000,
+                         "path_request_with_output_dict": 5000},
             "classes": {"self_loop": 200, "parallel_edges": 200, "parallel_diff_weight": 100, "zero_weight": 200,
                         "orient_two_way": 200, "orient_direct": 200, "orient_reverse": 200,
                         "unreachable_pair": 200, "tie": 100, "multi_vertex_geom": 500,
@@ -218,6 +219,15 @@ def run_case(case, ctx):
     hrng = random.Random(case["ord"])
     hrng.shuffle(pairs)
     finite = sorted({D[a][b] for a in range(n) for b in range(n) if D[a][b] != G.INF})
+    # the documented output_dict option: one dictionary shared by the requests of this case; for a third of the
+    # cases it is filled beforehand by all_shortest_distances(output_dict=...) / prepare()
+    shared = {}
+    use_dict = case["ord"] % 3
+    if use_dict == 1:
+        M.call(net.all_shortest_distances, 1e300, shared)
+    elif use_dict == 2 and case["ord"] % 2 == 0:
+        M.call(net.prepare, 1e300, False)
+        shared = net.DISTANCES if isinstance(getattr(net, "DISTANCES", None), dict) else shared
     for i, (s, t) in enumerate(pairs):
         # call history on the same Network object: other routing requests (bounded, target-less, from the same or
         # another source) are made between the judged path requests; whatever labels they leave must not be reused
@@ -245,7 +255,10 @@ def run_case(case, ctx):
             ctx.count("history_call:" + kind_h)
             if M.is_raised(hr):
                 ctx.count("history_call_raised:" + kind_h)
-        if i % 3 == 0:
+        if use_dict and i % 2 == 0:
+            tr = M.call(net.shortest_path, ids[s], ids[t], 1e300, shared)
+            ctx.count("path_request_with_output_dict")
+        elif i % 3 == 0:
             tr = M.call(net.shortest_path, nodes[s], nodes[t])
         else:
             tr = M.call(net.shortest_path, ids[s], ids[t])
